@@ -631,6 +631,26 @@ pub fn run_c19(ctx: &mut Ctx) {
                 v.insert(0, (ItemPath::from(format!("{id}legacy").as_str()), legacy));
                 variants.push(("predefined-names-shadowed-elsewhere/before", v));
             }
+            // a module whose path differs from the observed one's only in `-` for `_` (a file
+            // `gfx-types.pyxis` next to `gfx_types.pyxis`), written after and before it
+            if mpath.contains('_') {
+                let mut twin = Module::new();
+                for d in &g.mods[mi].1.definitions {
+                    if let ItemDefinitionInner::Type(_) = &d.inner {
+                        twin.definitions.push(ItemDefinition::new(
+                            (Visibility::Public, d.name.as_str()),
+                            TypeDefinition::new([TypeStatement::field((Visibility::Public, "w"), Type::ident("u8").const_pointer().array(11))]),
+                        ));
+                    }
+                }
+                let twin_path = mpath.replacen('_', "-", 1);
+                let mut v = g.mods.clone();
+                v.push((ItemPath::from(twin_path.as_str()), twin.clone()));
+                variants.push(("module-path-differing-by-a-dash/after", v));
+                let mut v = g.mods.clone();
+                v.insert(0, (ItemPath::from(twin_path.as_str()), twin));
+                variants.push(("module-path-differing-by-a-dash/before", v));
+            }
             // filler to change hash-map capacity
             {
                 let mut filler = Module::new();
